@@ -22,6 +22,10 @@ def nontrivial(r):
 
 def near(rng, fmt, kind):
     e = G.EPS[fmt]
+    if kind == "nvac" and rng.random() < 0.3:
+        u = G.near_one(rng, fmt, rng.randint(1, 9))          # inside / just outside the 4-ulp vacuity band
+        rest = G.round_fmt(fmt, 1.0 - u)
+        return [rest, 0.0, u, float(Fr(rng.randint(0, 8), 8))]
     if kind == "nvac":
         u = G.round_fmt(fmt, 1.0 - 10.0 ** (-rng.uniform(3, 15 if fmt == "f64" else 6.5)))
     else:
